@@ -193,8 +193,9 @@ def replay_stop_then_undo(w, unchecked):
 
 # ---- preempt --------------------------------------------------------------------------------------------------------------------
 def run_preempt(virtual, w, unchecked):
-    L = Lemma(f'time/preempt/{"variable-defeat" if virtual else "try-undo-body"}/w{w}/{"unchecked" if unchecked else "checked"}', w, unchecked,
-              may_defeat=True, virtual_defeat=virtual)
+    ctxname = {False: 'try-undo-body', True: 'variable-defeat', 'try': 'try-stop-body'}[virtual]
+    L = Lemma(f'time/preempt/{ctxname}/w{w}/{"unchecked" if unchecked else "checked"}', w, unchecked,
+              may_defeat=True, virtual_defeat=bool(virtual))
     L.functions.update(GEN)
     res = L.results
     try:
@@ -202,6 +203,9 @@ def run_preempt(virtual, w, unchecked):
         c.halting_cont = True
         L.enclosing_loop(); L.function_context()
         if virtual: L.func_defeat_value = L.entry.regs['defeat']
+        if virtual == 'try':
+            cg.func_defeat = stdlib.halt; cg.needs_variable_defeat = True
+            L.func_defeat_value = c.label('halt')
         body = ABlock('P', ALL, may_continue=True, preemptive=False)
         blk = ast.PreemptBlock(SPAN.start, body)
         out = L.guarded_emit(lambda: cg.gen_block(blk))
@@ -364,13 +368,18 @@ CONDS = {
 def run_defeat_prims(virtual, w, unchecked):
     from hidv.harness import spec as SP
     res = []
-    ctxname = 'variable-defeat' if virtual else 'real-defeat'
+    # contexts: real-defeat (try/undo body: defeat is `halt`), variable-defeat (inside a defeat function: the function's own defeat is the
+    # variable word), try-stop-body (directly in a try/stop body of a you-function: the *effective* defeat is the variable word, the
+    # function's defeat is still `halt`)
+    ctxname = {False: 'real-defeat', True: 'variable-defeat', 'try': 'try-stop-body'}[virtual]
     src = 'empty !z() { !is_defeat(); } empty @is_you() {}'
     for cond in list(CONDS) + ['<is_defeat>']:
-        L = Lemma(f'time/defeat/{ctxname}/{cond}/w{w}/{"unchecked" if unchecked else "checked"}', w, unchecked, may_defeat=True, virtual_defeat=virtual, src=src)
+        L = Lemma(f'time/defeat/{ctxname}/{cond}/w{w}/{"unchecked" if unchecked else "checked"}', w, unchecked, may_defeat=True, virtual_defeat=bool(virtual), src=src)
         L.functions.update(GEN + ['hidc.codegen.generator.CodeGen.truth_is_defeat', 'hidc.codegen.generator.CodeGen.eval_func_call', 'hidc.codegen.generator.compare_map'])
         try:
             cg = L.cg; c = L.ctx
+            if virtual == 'try':
+                cg.func_defeat = stdlib.halt; cg.needs_variable_defeat = True
             L.glue_may_defeat = True
             from hidc.lexer.tokens import Ident
             if cond == '<is_defeat>':
@@ -437,7 +446,7 @@ def run_defeat_prims(virtual, w, unchecked):
                 if l.kind == 'exit': problems += inv_regs(L, l, defeat=E.regs['defeat'])
             want = {'defeat'} if cond in ('<is_defeat>', 'true') else ({'pass'} if cond == 'false' else {'defeat', 'pass'})
             if not want <= kinds: problems.append(f'vacuity: {sorted(kinds)}')
-            L.add('LEAVES', 'failed' if problems else 'discharged', t0, ('C02', 'C09', 'C01'),
+            L.add('LEAVES', 'failed' if problems else 'discharged', t0, ('C02', 'C09', 'C01') + (('C03',) if virtual else ()),
                   {'formula': '!truth_is_defeat(c): operands evaluated once, in order; defeat (halt, or jump to the defeat word when virtual) <=> c; otherwise falls through unchanged',
                    'message': '; '.join(sorted(set(problems))), 'leaves': len(leaves)})
             if not unchecked: L.prove_all('SAFE', eng.safety, ('C04',))
@@ -511,8 +520,9 @@ def tasks(tier):
         for unchecked in ((False,) if tier == 'quick' else (False, True)):
             out.append(task(MOD, 'run_try_undo', P, label=f'time/try-undo/w{w}/u{int(unchecked)}', w=w, unchecked=unchecked, cost=3))
             out.append(task(MOD, 'run_try_stop', P, label=f'time/try-stop/w{w}/u{int(unchecked)}', w=w, unchecked=unchecked, cost=5))
-            for virtual in (False, True):
-                out.append(task(MOD, 'run_preempt', P, label=f'time/preempt/v{int(virtual)}/w{w}/u{int(unchecked)}', virtual=virtual, w=w, unchecked=unchecked, cost=3))
-                out.append(task(MOD, 'run_defeat_prims', P, label=f'time/defeat/v{int(virtual)}/w{w}/u{int(unchecked)}', virtual=virtual, w=w, unchecked=unchecked, cost=10))
+            for virtual in (False, True, 'try'):
+                vn = {False: 0, True: 1, 'try': 'try'}[virtual]
+                out.append(task(MOD, 'run_preempt', P, label=f'time/preempt/v{vn}/w{w}/u{int(unchecked)}', virtual=virtual, w=w, unchecked=unchecked, cost=3))
+                out.append(task(MOD, 'run_defeat_prims', P, label=f'time/defeat/v{vn}/w{w}/u{int(unchecked)}', virtual=virtual, w=w, unchecked=unchecked, cost=10))
             out.append(task(MOD, 'run_speculations', P, label=f'time/speculation/w{w}/u{int(unchecked)}', w=w, unchecked=unchecked, tier=tier, cost=20))
     return out
